@@ -54,7 +54,9 @@ def single_return(fn, what):
     body = body_of(fn)
     if body is None:
         raise Untranslatable('%s: no body' % what)
-    st = kids(body)
+    # declarations that only name types (using / typedef) do not count
+    st = [x for x in kids(body) if not (x.get('kind') == 'DeclStmt' and kids(x) and
+                                       all(d.get('kind') in ('TypeAliasDecl', 'TypedefDecl', 'UsingDecl') for d in kids(x)))]
     if len(st) != 1 or st[0].get('kind') != 'ReturnStmt' or len(kids(st[0])) != 1:
         raise Untranslatable('%s: body is not a single return statement' % what)
     return kids(st[0])[0]
